@@ -151,6 +151,8 @@ pub struct SearchStream {
     pub items: Ghost<Seq<ResultEntry>>,
 }
 pub uninterp spec fn stream_result(s: SearchStream) -> LdapResult;
+// prophecy: what starting a search with these arguments and modifiers answers
+pub uninterp spec fn start_outcome(q: Started) -> Result<()>;
 // `res.map(|_| { <mark_active> })`: std's Result::map -- the closure runs exactly on Ok; an error passes through
 pub trait ThenExt: Sized {
     spec fn was_ok(&self) -> bool;
@@ -191,6 +193,7 @@ impl SearchStream {
         ensures final(self).started@ == Some(Started { controls: old(self).ldap.controls, timeout: old(self).ldap.timeout,
                     search_opts: old(self).ldap.search_opts, chan: old(self).ldap.chan, base: base@, scope: scope, filter: filter@, attrs: attrs }),
                 final(self).adapters@ == old(self).adapters@,
+                r == start_outcome(final(self).started@->0),
     { unimplemented!() }
     // next(): yields the prophesied items in order, then Ok(None) (or an error)
     #[verifier::external_body]
@@ -287,6 +290,8 @@ impl Ldap {
         r matches Ok(s) ==> s.started@ == Some(Started { controls: old(self).controls, timeout: old(self).timeout, search_opts: old(self).search_opts, chan: old(self).chan,
             base: base@, scope: scope, filter: filter@, attrs: attrs }), //# C02+C12.stream_handle_receives_the_modifiers_and_the_search_arguments
         r matches Ok(s) ==> s.adapters@ == adapters.as_vec(),
+        r is Ok <==> start_outcome(Started { controls: old(self).controls, timeout: old(self).timeout, search_opts: old(self).search_opts, chan: old(self).chan,
+            base: base@, scope: scope, filter: filter@, attrs: attrs }) is Ok, //# C02+C10.the_search_fails_exactly_when_starting_it_fails
 //@end
 
 //@lift name=Ldap::streaming_search file=src/ldap.rs impl="impl\s+Ldap\s*\{" fn=streaming_search
@@ -300,6 +305,8 @@ impl Ldap {
         r matches Ok(s) ==> s.started@ == Some(Started { controls: old(self).controls, timeout: old(self).timeout, search_opts: old(self).search_opts, chan: old(self).chan,
             base: base@, scope: scope, filter: filter@, attrs: attrs }), //# C02.streaming_search_is_streaming_search_with_no_adapters_and_the_same_arguments
         r matches Ok(s) ==> s.adapters@.len() == 0,
+        r is Ok <==> start_outcome(Started { controls: old(self).controls, timeout: old(self).timeout, search_opts: old(self).search_opts, chan: old(self).chan,
+            base: base@, scope: scope, filter: filter@, attrs: attrs }) is Ok, //# C02+C10.the_search_fails_exactly_when_starting_it_fails
 //@end
 
 //@lift name=Ldap::search file=src/ldap.rs impl="impl\s+Ldap\s*\{" fn=search
